@@ -28,7 +28,9 @@ RULE = (
     'scheduler shuts down by itself.  Start-task oracle: every start task is '
     'launched; every launched instance is a start task or a graph descendant '
     'of one (reachable through trigger edges, or a later parentless instance '
-    'of a reached task, which the scheduler auto-spawns); nothing before the earliest '
+    'of a reached task, which the scheduler auto-spawns; parentless is taken '
+    'relative to the earliest start-task point, before which dependencies '
+    'count as satisfied); nothing before the earliest '
     'start task point that is not a descendant runs.  Non-trivial = warm '
     'start with an inter-cycle trigger crossing the start point, or start '
     'tasks that are not the whole first cycle; distinct by the case.')
@@ -133,7 +135,12 @@ async def _check(case, ctx: Ctx) -> CaseResult:
         else:
             viol += sc.crash_violations('C46')
             roots = {(t, p) for (t, p) in case['start_tasks']}
-            reach = descendants(sc.model, roots)
+            # cylc takes the earliest start-task point as the start point
+            # "for use in pre-initial ignore" (config.process_start_cycle_
+            # point): dependencies on earlier instances count as satisfied,
+            # so instances all of whose parents are earlier are parentless
+            smodel = Model(spec, start=min(p for (_t, p) in roots))
+            reach = descendants(smodel, roots)
             for r in sorted(roots - launched):
                 if sc.shut or sc.quiescent:
                     viol.append(Violation(
